@@ -1,7 +1,4 @@
-import NpsVerif.Model.Structural
-import NpsVerif.Spec.Rows
-namespace Props.C08
-open Model
-/-- sanity instance; the universally quantified theorems are added as they are proved -/
-theorem padded_example : paddedMatrix (RA.ofRows [[1, 2], [], [3, 4, 5], []]) 0 false = some [[0, 1, 2], [0, 0, 0], [3, 4, 5], [0, 0, 0]] := by decide
-end Props.C08
+import NpsVerif.Props.C08A
+import NpsVerif.Props.C08B
+/-! Property C08: theorems in `Props/C08A.lean` (concatenate, *_like, nonzero, where, subset, mask
+indexing) and `Props/C08B.lean` (ragged_slice, padded matrix). -/
